@@ -13,6 +13,7 @@ import (
 //
 //	kvh c12probe -out DIR '<json>'      json = {"cfg":{...},"parents":[[{"T":1,"G":"x","V":1}..]..],"sched":[{"Src":0}..]}
 func RunProbe(r *rt.Run) error {
+	installGateHook()
 	rn, err := newRunner("p")
 	if err != nil {
 		return err
@@ -24,6 +25,7 @@ func RunProbe(r *rt.Run) error {
 			Cfg     Cfg
 			Parents [][]Msg
 			Sched   []Step
+			Gated   bool
 		}
 		b := []byte(a)
 		if len(a) > 0 && a[0] == '@' {
@@ -36,7 +38,11 @@ func RunProbe(r *rt.Run) error {
 			return err
 		}
 		fmt.Println(in.Cfg.script())
-		rn.Run(t, in.Cfg, in.Parents, in.Sched)
+		if in.Gated {
+			rn.RunGated(t, in.Cfg, in.Parents, in.Sched)
+		} else {
+			rn.Run(t, in.Cfg, in.Parents, in.Sched)
+		}
 	}
 	r.Finish("manual probe", false)
 	b, _ := os.ReadFile(t.Path())
